@@ -79,5 +79,115 @@ example : shortNames [(["t", "a", "task_x.py"], "task_x"), (["t", "b", "task_x.p
        ((["t", "a", "task_x.py"], "task_x"), (["a", "task_x.py"], "task_x")),
        ((["t", "b", "task_x.py"], "task_x"), (["b", "task_x.py"], "task_x"))] := by decide
 
+/-! ## Names and ids of `@task` functions -/
+
+/-- the `(preliminary name, function)` pairs of `_parse_tasks_with_preliminary_names`. -/
+def parsedOf (w : World) (tasks : List ObjId) : List (String × ObjId) := tasks.map (fun o => (metaNameOf w o, o))
+
+/-- **C13_ids_sound.** Whatever `parse_collected_tasks_with_task_marker` returns has pairwise distinct
+names, and every entry is one of the registered functions (nothing is invented, nothing is merged under
+one key). -/
+theorem C13_ids_sound (enum : List String → List String) (w : World) (tasks : List ObjId) (d : Dict)
+    (h : parseCollected enum w tasks = some d) : (d.map Prod.fst).Nodup ∧ ∀ e ∈ d, e.2 ∈ tasks := by
+  unfold parseCollected at h
+  obtain ⟨h1, h2⟩ := foldl_parseStep_sound w _ _ [] d h (by simp)
+  refine ⟨h1, fun e he => ?_⟩
+  rcases h2 e he with h3 | h3
+  · simp at h3
+  · simpa [List.map_map, Function.comp] using h3
+
+/-- **C13_ids_total_full** (the property at full strength for one module's `@task` functions): if
+collection of the decorated functions does not fail, every registered function got a name. -/
+def C13_ids_total_full : Prop :=
+  ∀ (enum : List String → List String) (w : World) (tasks : List ObjId) (d : Dict),
+    (∀ l, (enum l).Perm l) → tasks.Nodup → parseCollected enum w tasks = some d → ∀ o ∈ tasks, ∃ k, (k, o) ∈ d
+
+def f8aFn (name : String) (tag : Nat) : FnObj :=
+  { file := ["r", "task_m.py"], fname := "_", params := [], defaults := [], tag := tag, marked := true,
+    metaName := name, metaId := none, metaKwargs := [] }
+
+/-- F8a witness: a loop creating two `@task(name="f")` functions and `@task(name="f[0]") def g()`. -/
+def f8aWorld : World :=
+  { heap := [((0, 1), f8aFn "f" 1), ((0, 2), f8aFn "f" 2), ((0, 3), f8aFn "f[0]" 3)], registry := [], modules := [], nextGen := 1 }
+
+/-- **Finding F8a**: the full statement is false — the generated id `f[0]` of the loop's first function
+is overwritten by the explicit name `f[0]`; two of three functions survive and no error is raised. -/
+theorem C13_ids_total_full_false : ¬ C13_ids_total_full := by
+  intro h
+  have hd : parseCollected id f8aWorld [(0, 1), (0, 2), (0, 3)] = some [("f[0]", (0, 3)), ("f[1]", (0, 2))] := by decide
+  obtain ⟨k, hk⟩ := h id f8aWorld [(0, 1), (0, 2), (0, 3)] _ (fun l => List.Perm.refl l) (by decide) hd (0, 1) (by simp)
+  simp at hk
+
+/-- Ids of different name groups never coincide (what F8a violates). -/
+def NoClash (w : World) (tasks : List ObjId) : Prop :=
+  ∀ n1 n2 c1 c2, n1 ≠ n2 → contribution w (parsedOf w tasks) n1 = some c1 → contribution w (parsedOf w tasks) n2 = some c2 →
+    ∀ k ∈ c1.map Prod.fst, k ∉ c2.map Prod.fst
+
+/-- **C13_ids_total_partial.** Outside the F8a class (no generated or plain id of one name group equals
+an id of another group), for every iteration order of the set `all_names`: if the decorated functions of
+a module are parsed without error, every one of them is in the result — none is dropped. -/
+theorem C13_ids_total_partial (enum : List String → List String) (w : World) (tasks : List ObjId) (d : Dict)
+    (hperm : ∀ l, (enum l).Perm l) (hnc : NoClash w tasks) (h : parseCollected enum w tasks = some d) :
+    ∀ o ∈ tasks, ∃ k, (k, o) ∈ d := by
+  intro o ho
+  unfold parseCollected at h
+  have hp := hperm (dedup ((parsedOf w tasks).map (·.1)))
+  obtain ⟨_, h2⟩ := foldl_parseStep_complete w (parsedOf w tasks) _ [] d h
+    (hp.nodup_iff.2 (nodup_dedup _)) (by simp) (by
+      intro n1 _ n2 _ hne c1 c2 hc1 hc2
+      exact hnc n1 n2 c1 c2 hne hc1 hc2)
+  have hn : metaNameOf w o ∈ enum (dedup ((parsedOf w tasks).map (·.1))) := by
+    apply hp.mem_iff.2
+    apply (mem_dedup _ _).2
+    exact List.mem_map.2 ⟨(metaNameOf w o, o), List.mem_map.2 ⟨o, ho, rfl⟩, rfl⟩
+  obtain ⟨c, hc, hcd⟩ := h2 _ hn
+  have hs := (contribution_spec w _ _ c hc).2
+  have : o ∈ c.map Prod.snd := by
+    rw [hs]
+    exact List.mem_map.2 ⟨(metaNameOf w o, o), List.mem_filter.2 ⟨List.mem_map.2 ⟨o, ho, rfl⟩, by simp⟩, rfl⟩
+  obtain ⟨e, he, heo⟩ := List.mem_map.1 this
+  exact ⟨e.1, by have := hcd e he; rw [← heo]; exact this⟩
+
+/-- **C13_dup_id_fails.** If two functions of one repeated name get the same id — equal explicit ids,
+argument values that stringify equally such as `1` and `"1"` or `True` and `"True"` — parsing fails
+(`ValueError`), whatever the iteration order; the functions are not silently merged. -/
+theorem C13_dup_id_fails (enum : List String → List String) (w : World) (tasks : List ObjId) (hperm : ∀ l, (enum l).Perm l)
+    (n : String) (a b : Nat) (x y : String × ObjId) (hab : a < b)
+    (ha : ((parsedOf w tasks).filter (fun e => e.1 == n))[a]? = some x)
+    (hb : ((parsedOf w tasks).filter (fun e => e.1 == n))[b]? = some y)
+    (hid : taskId w (paramsOfFirst w ((parsedOf w tasks).filter (fun e => e.1 == n))) x.1 a x.2
+         = taskId w (paramsOfFirst w ((parsedOf w tasks).filter (fun e => e.1 == n))) y.1 b y.2) :
+    parseCollected enum w tasks = none := by
+  have hlen : 2 ≤ ((parsedOf w tasks).filter (fun e => e.1 == n)).length := by
+    have := (List.getElem?_eq_some_iff.1 hb).1
+    omega
+  have hc : contribution w (parsedOf w tasks) n = none := by
+    unfold contribution generateIds
+    simp only [hlen, decide_true, ↓reduceIte]
+    exact genLoop_none_of_dup w _ _ 0 [] a b x y hab ha hb (by simpa using hid)
+  unfold parseCollected
+  apply foldl_parseStep_none_of_mem w _ n hc
+  apply (hperm _).mem_iff.2
+  apply (mem_dedup _ _).2
+  have hx := List.mem_of_getElem? ha
+  have hx' := List.mem_filter.1 hx
+  exact List.mem_map.2 ⟨x, hx'.1, by simpa using hx'.2⟩
+
+/-- Non-vacuity of `C13_dup_id_fails`: `x=1` and `x="1"` in a loop over `f(x)`. -/
+def dupWorld : World :=
+  { heap := [((0, 1), { f8aFn "f" 1 with params := ["x"], defaults := [("x", Val.int 1)] }),
+             ((0, 2), { f8aFn "f" 2 with params := ["x"], defaults := [("x", Val.str "1")] })],
+    registry := [], modules := [], nextGen := 1 }
+example : parseCollected id dupWorld [(0, 1), (0, 2)] = none := by decide
+example : taskId dupWorld ["x"] "f" 0 (0, 1) = "f[1]" ∧ taskId dupWorld ["x"] "f" 1 (0, 2) = "f[1]" := by decide
+/-- Non-vacuity of `C13_ids_total_partial`: bool / int / float / str / other arguments give `f[True-x0]`, … -/
+def okWorld : World :=
+  { heap := [((0, 1), { f8aFn "f" 1 with params := ["x", "y"], defaults := [("x", Val.bool true), ("y", Val.other)] }),
+             ((0, 2), { f8aFn "f" 2 with params := ["x", "y"], defaults := [("x", Val.float "1.0"), ("y", Val.int (-1))] }),
+             ((0, 3), f8aFn "g" 3)],
+    registry := [], modules := [], nextGen := 1 }
+example : parseCollected id okWorld [(0, 1), (0, 2), (0, 3)]
+    = some [("f[True-y0]", (0, 1)), ("f[1.0--1]", (0, 2)), ("g", (0, 3))] := by decide
+
 end Collect
 end Pytask
